@@ -156,6 +156,8 @@ FILLERS = {
     "prefix": (["Today is "], []),
     "suffix": ([], [" or so"]),
     "both": (["It happened on "], [" exactly"]),
+    # a filler word the parser's vocabulary also knows (the a.m. marker "a") after a time whose AM/PM flag is already consumed
+    "article": (["Today is "], [", a fine day"]),
 }
 
 
@@ -208,6 +210,8 @@ def h_fuzzy(name, filler):
                 ok = False
                 break
             pos = j + len(w)
+        if filler == "article":     # the filler after the date must come back whole
+            ok = ok and all(pc.strip(", ") in joined for pc in post)
         ctx.check(ok, "fuzzy_with_tokens does not return the skipped text in order", key="fuzzy-tokens-text:%s:%s" % (name.split("-")[0], filler))
         return "ok"
 
@@ -362,6 +366,7 @@ def cells(tier):
     for n in tnames:
         for f in (("both",) if q else ("prefix", "suffix", "both")):
             cs.append(Cell(M, "h_fuzzy", dict(name=n, filler=f), name="fuzzy[%s|%s]" % (n, f), budget_s=200 if q else 1200, per_path_s=30, max_violations=20))
+    cs.append(Cell(M, "h_fuzzy", dict(name="ampm", filler="article"), name="fuzzy[ampm|article]", budget_s=200 if q else 1200, per_path_s=30, max_violations=20))
     return cs
 
 
